@@ -1,0 +1,27 @@
+//go:build verif
+// +build verif
+
+package server
+
+import (
+	"net"
+
+	"github.com/XiaoMi/Gaea/mysql"
+)
+
+// VerifHandshakeAuth runs the real handshake-response decision (user, password
+// proof, collation, namespace binding) of a session for an arbitrary salt and
+// auth response, without a listener. It returns the namespace the session was bound to.
+func VerifHandshakeAuth(m *Manager, info HandshakeResponseInfo) (string, error) {
+	c1, c2 := net.Pipe()
+	defer c1.Close()
+	defer c2.Close()
+	cc := new(Session)
+	cc.c = NewClientConn(mysql.NewConn(c1), m)
+	cc.manager = m
+	cc.executor = newSessionExecutor(m)
+	cc.executor.session = cc
+	cc.closed.Store(false)
+	err := cc.handleHandshakeResponse(info)
+	return cc.namespace, err
+}
